@@ -57,6 +57,7 @@ type Outcome struct {
 type panicRec struct {
 	val       Value
 	recovered bool
+	where     string
 }
 
 type deferred struct {
@@ -114,6 +115,7 @@ type Exec struct {
 	Unwind  int
 	MaxDepth int
 	BranchTimeoutMs int
+	ConcretizeTimeoutMs int
 	Merge   bool
 	NoMergePkgs []string
 	// harness results
@@ -135,6 +137,7 @@ type Exec struct {
 	Trace       bool
 	LenOfSym    map[int]*Term
 	CurHarness  string
+	ContractsUsed []string
 	Tier        string
 	BitLenDense int
 }
@@ -146,7 +149,7 @@ type Observation struct {
 
 func NewExec(prog *ssa.Program, solver *Solver) *Exec {
 	e := &Exec{Prog: prog, TS: NewStore(), Solver: solver, globals: map[*ssa.Global]int{}, initSt: map[*ssa.Package]int{},
-		Unwind: 8, MaxDepth: 400, BranchTimeoutMs: 2000, Merge: true, FuncsSeen: map[*ssa.Function]int{}, defKey: map[string][]*Term{},
+		Unwind: 8, MaxDepth: 400, BranchTimeoutMs: 2000, ConcretizeTimeoutMs: 20000, Merge: true, FuncsSeen: map[*ssa.Function]int{}, defKey: map[string][]*Term{},
 		nondet: map[string]Value{}, strIntern: map[string]int64{}, feasCache: map[string]Result{}, InitPkgs: map[string]bool{}, LenOfSym: map[int]*Term{}}
 	return e
 }
@@ -515,7 +518,7 @@ func (e *Exec) ensureInit(st *State, pkg *ssa.Package) {
 		if len(outs) > 0 {
 			why = outs[0].Why
 			if outs[0].Kind == OutPanic {
-				why = "panic: " + e.describe(outs[0].St, outs[0].Pan)
+				why = "panic: " + e.describe(outs[0].St, outs[0].Pan) + " at " + outs[0].Why
 			}
 		}
 		e.logf("init of %s did not complete cleanly: %d outcomes %s", path, len(outs), why)
@@ -664,7 +667,7 @@ func (e *Exec) runFrame(f *Frame) (done []Outcome, more []*Frame) {
 						}
 						return append(done, Outcome{Kind: OutReturn, St: f.st, Ret: e.zeroResults(f.fn)}), more
 					}
-					return append(done, Outcome{Kind: OutPanic, St: f.st, Pan: f.unwinding.val}), more
+					return append(done, Outcome{Kind: OutPanic, St: f.st, Pan: f.unwinding.val, Why: f.unwinding.where}), more
 				}
 				// normal RunDefers finished
 				f.runningDefers = false
@@ -753,7 +756,7 @@ func (e *Exec) runFrame(f *Frame) (done []Outcome, more []*Frame) {
 			return append(done, Outcome{Kind: OutReturn, St: f.st, Ret: ret}), more
 		case *ssa.Panic:
 			v := e.get(f, in.X)
-			f.unwinding = &panicRec{val: v}
+			f.unwinding = &panicRec{val: v, where: f.fn.String() + " " + e.Prog.Fset.Position(in.Pos()).String()}
 			continue
 		case *ssa.RunDefers:
 			if len(f.defers) == 0 {
@@ -788,6 +791,9 @@ func (e *Exec) runFrame(f *Frame) (done []Outcome, more []*Frame) {
 			outs := e.callValue(f.st, fnv, args, method, f.depth+1, nil)
 			if e.inInit && (f.fn.Synthetic == "package initializer" || strings.HasPrefix(f.fn.Name(), "init#")) {
 				for i := range outs {
+					if outs[i].Kind == OutPanic {
+						outs[i] = Outcome{Kind: OutError, St: outs[i].St, Why: "panic " + e.describe(outs[i].St, outs[i].Pan) + " at " + outs[i].Why}
+					}
 					if outs[i].Kind == OutError {
 						e.logf("init: tolerated failure: %s", strings.SplitN(outs[i].Why, "\n", 2)[0])
 						outs[i] = Outcome{Kind: OutReturn, St: outs[i].St, Ret: UnknownVal{Why: "init: " + strings.SplitN(outs[i].Why, "\n", 2)[0]}}
@@ -844,7 +850,7 @@ func (e *Exec) continueAfterCall(f *Frame, call *ssa.Call, outs []Outcome) (fram
 			nf = f.clone(o.St)
 		}
 		if o.Kind == OutPanic {
-			nf.unwinding = &panicRec{val: o.Pan}
+			nf.unwinding = &panicRec{val: o.Pan, where: o.Why}
 			nf.runningDefers = false
 		} else if call != nil {
 			nf.locals[call] = o.Ret
